@@ -18,7 +18,12 @@ flow-removed stream — is `history_refines_partial`: it holds for every history
 The unrestricted statement `history_refines_full` is kept next to it; it is false for every variant, and the `…_defect`
 theorems say exactly why: for the fully repaired variant only because of the open C03 finding D36 (ECN bits of the ToS byte — see
 `regular_repaired`), for a tree that reverts a repair because of that repair's finding.  The harness replays every witness on the
-real switch. -/
+real switch.
+
+Trusted readings of the standard that `Spec/OF10Table.lean` shares with the code (they are choices, not consequences): CHECK_OVERLAP
+compares *rank* (exact flows above all priorities) where §4.6 says "same priority"; an identical flow with CHECK_OVERLAP is refused
+before it could be replaced; timeouts are strict (`>`), observed at sweeps; idle wins over hard when both have passed; among matching
+flows of equal rank the newest is hit; a named buffer is released for every defined command. -/
 namespace Pox.C04
 open Pox.OF Pox.OF.OfMatch Pox.FlowMod Pox.Spec
 
@@ -121,7 +126,8 @@ theorem departures_leave (s : State) (op : Op)
    (`idle_timeout > 0 ∧ last_touched + idle_timeout < now`, or `hard_timeout > 0 ∧ created + hard_timeout < now`, seconds scaled to
    milliseconds): not earlier, and not later than the first sweep after the deadline — after any sweep no entry past a deadline is
    left, so no sweep between the deadline and `now` can have spared it.
-2. No other operation removes an entry because of time (`removed_once`: only DELETE and the replacement by ADD take entries out).
+2. No other operation removes an entry because of time (`step_keeps`: only a sweep, DELETE and the replacement by ADD take
+   entries out).
 3. Every entry of the table after a step is an entry of the table before with unchanged `created`, `last_touched`, counters and
    timeouts (`Kept`) — or the one entry a packet hit, whose `last_touched` becomes `now` and counters grow while `created` stays —
    or the entry a flow-mod just created.  So only traffic refreshes the idle clock and nothing refreshes the hard clock; MODIFY
@@ -133,12 +139,21 @@ theorem expiry_window (s : State) :
     (∀ op e', e' ∈ (step s op).1.table →
       Kept s e' ∨
       (∃ p inPort len, op = .packet p inPort len ∧
-        ∃ e ∈ s.table, e.accepts (s.cfg.mv.fromPacket p inPort) = true ∧ e' = touch len s.now e) ∨
+        ∃ e ∈ s.table, accepts s.cfg (pktMatch s.cfg p inPort) e = true ∧ e' = touch len s.now e) ∨
       (∃ fm, op = .flowMod fm ∧ e' = mkEntry s.cfg s.now fm ∧ fm.flags.testBit FF_EMERG = false)) := by
   refine ⟨?_, fun op e' h => step_clocks s op e' h⟩
   intro e
   simp only [FlowMod.step, FlowMod.sweep, List.mem_filter, Bool.and_eq_true, Bool.not_eq_true', ← idleOut_iff, ← hardOut_iff,
     Bool.not_eq_true]
+
+/-- **Nothing else leaves the table** (no hypothesis, every state, every operation): every entry that the step may not take out —
+    a sweep may take the expired ones, DELETE[_STRICT] the selected ones, ADD the ones equal to the new flow for the strict test
+    (`mayLeave`) — is in the table after the step, in the same relative order, with the same match, priority, cookie, flags,
+    timeouts and `created`.  So MODIFY[_STRICT], an ADD that is refused or acts for MODIFY, an unknown command, the release of a
+    buffer, packet arrivals, clock advances and statistics requests keep every entry. -/
+theorem step_keeps (s : State) (op : Op) :
+    ((s.table.filter (fun e => !mayLeave s op e)).map ident).Sublist ((step s op).1.table.map ident) :=
+  FlowMod.step_keeps s op
 
 /-- `created ≤ last_touched ≤ now` in every reachable state: durations and idle times are never negative -/
 theorem clock_inv (cfg : Cfg) (now mx mb : Nat) (ops : List Op) : ClockOk (run (init cfg now mx mb) ops).1 := by
@@ -162,69 +177,91 @@ def history_refines_full (cfg : Cfg) : Prop :=
     (run (init cfg now mx mb) ops).2.map (fun os => os.map absOut) = (Spec.run (specInit now mx mb) ops).2
 
 /-- **flowmod_refines_partial** (one step, every operation).  In a state satisfying the invariant (sorted; every entry stems from a
-    regular transmitted match; at most `max_entries` entries), for an event satisfying its hypotheses (`OpOk`: regular match and
-    16-bit priority in a flow-mod, complete frame without ECN bits, regular match in a statistics request), the model's step is the
-    standard's step: same table (flows, actions, clocks, counters, order, buffers) and same messages.  Covers ADD with
-    replacement and counter reset, CHECK_OVERLAP (including address prefixes), table-full, emergency refusals, MODIFY /
+    regular transmitted match; at most `max_entries` entries), for an event satisfying its hypotheses *in that state* (`OpOk s`:
+    regular match, 16-bit priority and followed actions in a flow-mod; complete frame — whose ECN bits matter only without repair D36
+    and only if some installed flow compares the ToS byte; regular match in a statistics request), the model's step is the standard's
+    step: same table (flows, actions, clocks, counters, order, buffers) and same messages — and the match every flow-removed /
+    flow-stats message actually carries (`match.pack()`) denotes the packets of the flow it is about (`FaithfulOut`).  Covers ADD
+    with replacement and counter reset, CHECK_OVERLAP (including address prefixes), table-full, emergency refusals, MODIFY /
     MODIFY_STRICT including modify-acts-as-add, DELETE / DELETE_STRICT with the `out_port` filter and flow-removed, unknown
     commands, the buffer named by a flow-mod (released through the flow-mod's actions; BUFFER_UNKNOWN / BUFFER_EMPTY), packet
-    accounting and buffering of a miss, sweeps, flow and aggregate statistics. -/
-theorem flowmod_refines_partial (s : State) (op : Op) (hi : Inv s) (ho : OpOk s.cfg op) :
-    abs (step s op).1 = (Spec.step (abs s) op).1 ∧ (step s op).2.map absOut = (Spec.step (abs s) op).2 ∧ Inv (step s op).1 :=
-  ⟨(step_refines s op hi ho).1, (step_refines s op hi ho).2, step_inv s op hi ho⟩
+    accounting, buffering of a miss, outputs to the controller (on a hit and on a release), sweeps, flow and aggregate statistics. -/
+theorem flowmod_refines_partial (s : State) (op : Op) (hi : Inv s) (ho : OpOk s op) :
+    abs (step s op).1 = (Spec.step (abs s) op).1 ∧ (step s op).2.map absOut = (Spec.step (abs s) op).2 ∧
+    (∀ o ∈ (step s op).2, FaithfulOut o) ∧ Inv (step s op).1 :=
+  ⟨(step_refines s op hi ho).1, (step_refines s op hi ho).2, step_outs_faithful s op hi, step_inv s op hi ho⟩
 
-/-- **history_refines_partial.**  `history_refines_full` restricted to the histories all of whose events are regular (`HistOk`):
-    from the empty table, the model's table equals the standard's after the history (hence after every prefix), everything
-    written step by step equals what the standard prescribes, and the invariant holds.  Both code variants. -/
-theorem history_refines_partial (cfg : Cfg) (now mx mb : Nat) (ops : List Op) (h : HistOk cfg ops) :
+/-- **history_refines_partial.**  `history_refines_full` restricted to the histories all of whose events are regular in the state
+    they are applied to (`HistOk`): from the empty table, the model's table equals the standard's after the history (hence after
+    every prefix), everything written step by step equals what the standard prescribes, every match written denotes its flow, and
+    the invariant holds.  Every code variant. -/
+theorem history_refines_partial (cfg : Cfg) (now mx mb : Nat) (ops : List Op) (h : HistOk (init cfg now mx mb) ops) :
     abs (run (init cfg now mx mb) ops).1 = (Spec.run (specInit now mx mb) ops).1 ∧
     (run (init cfg now mx mb) ops).2.map (fun os => os.map absOut) = (Spec.run (specInit now mx mb) ops).2 ∧
+    (∀ os ∈ (run (init cfg now mx mb) ops).2, ∀ o ∈ os, FaithfulOut o) ∧
     Inv (run (init cfg now mx mb) ops).1 :=
-  run_refines (init cfg now mx mb) ops (init_inv cfg now mx mb) h
+  let r := run_refines (init cfg now mx mb) ops (init_inv cfg now mx mb) h
+  ⟨r.1, r.2.1, run_outs_faithful (init cfg now mx mb) ops (init_inv cfg now mx mb) h, r.2.2⟩
 
-/-- what "regular" still means once every repair is in: ToS values without ECN bits (the open C03 finding D36), a priority
-    that fits its 16-bit field, and complete frames -/
+/-- what "regular" still means once every repair (C04-1/2/3, D37, D38, D26, D36) is in — no property of the code any more, only the
+    reach of the model: a priority that fits its 16-bit field, actions the model follows (`actsOk`: no `output:TABLE`; outputs only
+    around an `output:CONTROLLER`), complete frames -/
 def RegularOp : Op → Prop
-  | .flowMod fm => fm.mtch.nwTos % 4 = 0 ∧ fm.priority ≤ 0xffff
-  | .packet p _ _ => Variant.repaired.regular p = true ∧ pktTos p % 4 = 0
-  | .flowStats m _ => m.nwTos % 4 = 0
-  | .aggStats m _ => m.nwTos % 4 = 0
-  | .advance _ => True
-  | .sweep => True
+  | .flowMod fm => fm.priority ≤ 0xffff ∧ actsOk fm.actions = true
+  | .packet p _ _ => Variant.repaired.regular p = true
+  | _ => True
 
 instance : (op : Op) → Decidable (RegularOp op)
-  | .flowMod fm => inferInstanceAs (Decidable (fm.mtch.nwTos % 4 = 0 ∧ fm.priority ≤ 0xffff))
-  | .packet p _ _ => inferInstanceAs (Decidable (Variant.repaired.regular p = true ∧ pktTos p % 4 = 0))
-  | .flowStats m _ => inferInstanceAs (Decidable (m.nwTos % 4 = 0))
-  | .aggStats m _ => inferInstanceAs (Decidable (m.nwTos % 4 = 0))
+  | .flowMod fm => inferInstanceAs (Decidable (fm.priority ≤ 0xffff ∧ actsOk fm.actions = true))
+  | .packet p _ _ => inferInstanceAs (Decidable (Variant.repaired.regular p = true))
+  | .flowStats _ _ => isTrue trivial
+  | .aggStats _ _ => isTrue trivial
   | .advance _ => isTrue trivial
   | .sweep => isTrue trivial
 
-theorem regular_repaired (op : Op) (h : RegularOp op) : OpOk Cfg.repaired op := by
+theorem regular_repaired (s : State) (hc : s.cfg = Cfg.repaired) (op : Op) (h : RegularOp op) : OpOk s op := by
   have t1 : Cfg.repaired.maskUndefined ≠ false := by decide
   have t2 : Cfg.repaired.strictMutual ≠ false := by decide
   have t3 : Cfg.repaired.statsUnwire ≠ false := by decide
   have t4 : Cfg.repaired.mv.prereqExact ≠ false := by decide
   have t5 : Cfg.repaired.mv.exactSig ≠ false := by decide
+  have t6 : ¬ (Cfg.repaired.tosDscp = false ∨ Cfg.repaired.strictMutual = false) := by decide
+  have t7 : Cfg.repaired.tosDscp ≠ false := by decide
   cases op with
   | flowMod fm =>
-    exact { mok := { prereq := fun h => absurd h t4, tos := h.1, exactL4 := fun h => absurd h t5, width := fun h => absurd h t1,
-                     hostSrc := fun h => absurd h t2, hostDst := fun h => absurd h t2 },
-            prio := h.2 }
-  | packet p port len => exact h
-  | flowStats m o => exact { prereq := fun h => absurd h t4, tos := h, canon := fun h => absurd h t3 }
-  | aggStats m o => exact { prereq := fun h => absurd h t4, tos := h, canon := fun h => absurd h t3 }
+    show MsgOk s.cfg fm
+    rw [hc]
+    exact { mok := { prereq := fun h => absurd h t4, tos := fun h => absurd h t6, exactL4 := fun h => absurd h t5,
+                     width := fun h => absurd h t1, hostSrc := fun h => absurd h t2, hostDst := fun h => absurd h t2 },
+            prio := h.1, acts := h.2 }
+  | packet p port len =>
+    show s.cfg.mv.regular p = true ∧ _
+    rw [hc]
+    exact ⟨h, .inl rfl⟩
+  | flowStats m o =>
+    show StatsOk s.cfg m
+    rw [hc]; exact { prereq := fun h => absurd h t4, tos := fun h => absurd h t7, canon := fun h => absurd h t3 }
+  | aggStats m o =>
+    show StatsOk s.cfg m
+    rw [hc]; exact { prereq := fun h => absurd h t4, tos := fun h => absurd h t7, canon := fun h => absurd h t3 }
   | advance dt => trivial
   | sweep => trivial
 
-/-- with every repair, the refinement holds for every history outside the one open finding D36: address bits below the prefix,
-    undefined wildcard bits, un-normalised statistics requests, wildcarded prerequisite fields and exact non-L4 flows are all
-    handled as the standard says -/
+theorem histOk_repaired (s : State) (hc : s.cfg = Cfg.repaired) (ops : List Op) (h : ∀ op ∈ ops, RegularOp op) : HistOk s ops := by
+  induction ops generalizing s with
+  | nil => trivial
+  | cons op ops ih =>
+    exact ⟨regular_repaired s hc op (h op (by simp)), ih _ (by rw [step_cfg]; exact hc) (fun o ho => h o (by simp [ho]))⟩
+
+/-- **With every repair the refinement holds for every history** the model reaches — no hypothesis on matches, ToS values,
+    wildcard encodings or statistics requests is left; what remains restricts the model (16-bit priorities, followed actions,
+    complete frames), not the code. -/
 theorem history_refines_repaired (now mx mb : Nat) (ops : List Op) (h : ∀ op ∈ ops, RegularOp op) :
     abs (run (init Cfg.repaired now mx mb) ops).1 = (Spec.run (specInit now mx mb) ops).1 ∧
-    (run (init Cfg.repaired now mx mb) ops).2.map (fun os => os.map absOut) = (Spec.run (specInit now mx mb) ops).2 :=
-  let r := history_refines_partial Cfg.repaired now mx mb ops (fun op hm => regular_repaired op (h op hm))
-  ⟨r.1, r.2.1⟩
+    (run (init Cfg.repaired now mx mb) ops).2.map (fun os => os.map absOut) = (Spec.run (specInit now mx mb) ops).2 ∧
+    (∀ os ∈ (run (init Cfg.repaired now mx mb) ops).2, ∀ o ∈ os, FaithfulOut o) :=
+  let r := history_refines_partial Cfg.repaired now mx mb ops (histOk_repaired _ rfl ops h)
+  ⟨r.1, r.2.1, r.2.2.1⟩
 
 def SOut.isRemoved : SOut → Bool
   | .flowRemoved _ => true
@@ -232,7 +269,7 @@ def SOut.isRemoved : SOut → Bool
 
 /-- the notification stream: over a whole regular history the flow-removed messages the switch writes are, in order, exactly
     those of the standard — match, cookie, priority, reason, duration, idle timeout, packet and byte counts -/
-theorem removed_stream_refines (cfg : Cfg) (now mx mb : Nat) (ops : List Op) (h : HistOk cfg ops) :
+theorem removed_stream_refines (cfg : Cfg) (now mx mb : Nat) (ops : List Op) (h : HistOk (init cfg now mx mb) ops) :
     (((run (init cfg now mx mb) ops).2.flatten).map absOut).filter SOut.isRemoved =
       ((Spec.run (specInit now mx mb) ops).2.flatten).filter SOut.isRemoved := by
   rw [← (history_refines_partial cfg now mx mb ops h).2.1, List.map_flatten]
@@ -240,7 +277,7 @@ theorem removed_stream_refines (cfg : Cfg) (now mx mb : Nat) (ops : List Op) (h 
 /-- what the code's match tests mean in the standard's terms, for regular transmitted matches and both code variants: the
     non-strict test is subsumption of every 12-tuple, the strict test is "same set of 12-tuples" -/
 theorem selection_meaning (cfg : Cfg) (a b : OfMatch) (ha : WireOk cfg a) (hb : WireOk cfg b) :
-    (matchesWith true (rxMatch cfg a) (rxMatch cfg b) = true ↔ ∀ h : Headers, matchHdr b h = true → matchHdr a h = true) ∧
+    (matchW cfg true (rxMatch cfg a) (rxMatch cfg b) = true ↔ ∀ h : Headers, matchHdr b h = true → matchHdr a h = true) ∧
     (strictMatch cfg (rxMatch cfg a) (rxMatch cfg b) = true ↔ ∀ h : Headers, matchHdr a h = matchHdr b h) := by
   rw [rx_subsumes cfg a b ha hb, rx_strict cfg a b ha hb]
   exact ⟨subsumes_forall a b, identical_iff a b⟩
@@ -254,7 +291,7 @@ theorem overlap_meaning (a b : OfMatch) : overlaps a b = true ↔ ∃ h : Header
     matched by a packet that also matches the new flow — including flows that overlap only partially (`partial_overlap_witness`,
     `cidr_overlap_witness`). -/
 theorem overlap_check_exact (s : State) (fm : FlowModMsg) (hi : Inv s) (hm : MsgOk s.cfg fm) (he : fm.flags.testBit FF_EMERG = false) :
-    overlapScan s.cfg.key (s.cfg.key (mkEntry s.cfg s.now fm)) (rxMatch s.cfg fm.mtch) s.table = true ↔
+    overlapScan s.cfg (s.cfg.key (mkEntry s.cfg s.now fm)) (rxMatch s.cfg fm.mtch) s.table = true ↔
       ∃ e ∈ s.table, (absEntry e).rank = (newFlow s.now fm).rank ∧
         ∃ h : Headers, matchHdr e.data.wire h = true ∧ matchHdr fm.mtch h = true := by
   rw [overlap_abs s fm hi hm he]
@@ -311,18 +348,21 @@ def demo : List Op :=
     fmsg .delete mAll 0 0 8 (outPort := 3) (buf := some 9),        -- out_port filter: nothing outputs to 3 any more; no buffer 9
     fmsg (.unknown 7) mAll 0 0 9 (buf := some 1),                  -- BAD_COMMAND, nothing else
     fmsg .deleteStrict mNet8 200 0 10,                             -- flow-removed, reason 2, with the packet counted
+    fmsg .add mTcp80 300 0 11 (acts := [.output 2 0, .output OFPP_CONTROLLER 64]),   -- a flow that also sends to the controller
+    .packet tcpFrame 1 74,                                         -- hits it: stored as buffer 1 again, packet-in reason ACTION
     .aggStats mAll OFPP_NONE ]
 
 -- the hypotheses of `history_refines_partial` hold for `demo`, in both variants …
-example : HistOk Cfg.head demo ∧ HistOk Cfg.repaired demo ∧ ∀ op ∈ demo, RegularOp op := by decide
+example : HistOk (init Cfg.head 1000000 100 4) demo ∧ HistOk (init Cfg.repaired 1000000 100 4) demo ∧ ∀ op ∈ demo, RegularOp op := by
+  decide
 -- … the history is not trivial: packet-in with buffer id, overlap refusal, release of the buffer, BUFFER_EMPTY / BUFFER_UNKNOWN,
 -- hard-timeout and delete notifications, BAD_COMMAND, the aggregate of what is left — the same in both variants
 example : ∀ cfg ∈ [Cfg.head, Cfg.repaired], (run (init cfg 1000000 100 4) demo).2.map (fun os => os.map absOut) =
-    [[.packetIn 3 (some 1)], [], [.error 3 1], [], [.release 1 ⟨arpFrame, 60, 3⟩ [.output 2 0]], [], [.error 1 7], [], [], [],
+    [[.packetIn 3 (some 1) 0], [], [.error 3 1], [], [.release 1 ⟨arpFrame, 60, 3⟩ [.output 2 0]], [], [.error 1 7], [], [], [],
      [.flowRemoved ⟨mTcp80, 6, 7, 1, 1, 125000000, 0, 0, 0⟩], [.error 1 8], [.error 3 4],
-     [.flowRemoved ⟨mNet8, 3, 200, 2, 1, 125000000, 0, 1, 74⟩], [.aggStats 0 0 2]] := by decide
+     [.flowRemoved ⟨mNet8, 3, 200, 2, 1, 125000000, 0, 1, 74⟩], [], [.packetIn 1 (some 1) 1], [.aggStats 1 74 3]] := by decide
 example : (run (init Cfg.head 1000000 100 4) demo).1.table.map (fun e => (e.data.cookie, e.priority, e.data.actions)) =
-    [(7, 100, [.output 2 0]), (4, 100, [.output 2 0])] := by decide
+    [(11, 300, [.output 2 0, .output OFPP_CONTROLLER 64]), (7, 100, [.output 2 0]), (4, 100, [.output 2 0])] := by decide
 -- `removed_once` / `expiry_window`: a state with departures and entries that stay
 example : (departures (run (init Cfg.head 1000000 100 4) (demo.take 10)).1 .sweep).map (fun d => (d.1.data.cookie, d.2)) = [(6, 1)] ∧
     (run (init Cfg.head 1000000 100 4) (demo.take 10)).1.table.length = 4 := by decide
@@ -342,7 +382,7 @@ example : matchesWith true (ofWire mIp) (ofWire mNet8) = true ∧ matchesWith tr
     second ADD.  Standard and model refuse it with `OFPFMFC_OVERLAP`. -/
 theorem partial_overlap_witness :
     let ops := [fmsg .add mInPort1 100 2 1, fmsg .add mIp 100 2 2]
-    HistOk Cfg.head ops ∧
+    HistOk (init Cfg.head 0 100 4) ops ∧
     matchHdr mInPort1 (headers tcpFrame 1) = true ∧ matchHdr mIp (headers tcpFrame 1) = true ∧
     subsumes mInPort1 mIp = false ∧ subsumes mIp mInPort1 = false ∧
     (run (init Cfg.head 0 100 4) ops).1.table.map (·.data.cookie) = [1] ∧
@@ -353,7 +393,7 @@ theorem partial_overlap_witness :
     disjoint (accepted) -/
 theorem cidr_overlap_witness :
     let ops := [fmsg .add mNet8 100 2 1, fmsg .add mDst16 100 2 2, fmsg .add mNet8o 100 2 3]
-    HistOk Cfg.head ops ∧ overlaps mNet8 mDst16 = true ∧ subsumes mNet8 mDst16 = false ∧ subsumes mDst16 mNet8 = false ∧
+    HistOk (init Cfg.head 0 100 4) ops ∧ overlaps mNet8 mDst16 = true ∧ subsumes mNet8 mDst16 = false ∧ subsumes mDst16 mNet8 = false ∧
     overlaps mNet8 mNet8o = false ∧
     (run (init Cfg.head 0 100 4) ops).1.table.map (·.data.cookie) = [3, 1] ∧
     (run (init Cfg.head 0 100 4) ops).2 = [[], [.error OFPET_FLOW_MOD_FAILED OFPFMFC_OVERLAP], []] := by decide
@@ -375,7 +415,7 @@ theorem strict_hostbits_defect :
     identical mNet8a mNet8b = true ∧ PrereqExact mNet8a ∧ mNet8a.wildcards < 2 ^ 22 ∧ ¬ WireOk Cfg.head mNet8a ∧
     (run (init Cfg.head 0 100 4) ops).1.table.map (·.data.cookie) = [2, 1] ∧
     (Spec.run (specInit 0 100 4) ops).1.flows.map (·.cookie) = [2] ∧
-    HistOk Cfg.repaired ops ∧ (run (init Cfg.repaired 0 100 4) ops).1.table.map (·.data.cookie) = [2] := by decide
+    HistOk (init Cfg.repaired 0 100 4) ops ∧ (run (init Cfg.repaired 0 100 4) ops).1.table.map (·.data.cookie) = [2] := by decide
 
 /-- "all wildcards" written as `0xffffffff` (bits 22..31 are undefined in OpenFlow 1.0) -/
 def mAllHi : OfMatch := { zeroMatch with wildcards := 0xffffffff }
@@ -389,7 +429,7 @@ theorem undefined_bits_defect :
     subsumes mAll mAllHi = true ∧ PrereqExact mAllHi ∧ ¬ WireOk Cfg.head mAllHi ∧
     (run (init Cfg.head 0 100 4) ops).1.table.map (·.data.cookie) = [1] ∧
     (Spec.run (specInit 0 100 4) ops).1.flows = [] ∧
-    HistOk Cfg.repaired ops ∧ (run (init Cfg.repaired 0 100 4) ops).1.table = [] := by decide
+    HistOk (init Cfg.repaired 0 100 4) ops ∧ (run (init Cfg.repaired 0 100 4) ops).1.table = [] := by decide
 
 /-- an ARP description whose (ignored) tp_src bit is clear, as a controller that only sets the bits it cares about sends it -/
 def mArpQ : OfMatch := { zeroMatch with wildcards := wc [.dlType, .tpSrc] 32 32, dlType := 0x0806 }
@@ -403,7 +443,7 @@ theorem stats_unwired_defect :
     subsumes mArpQ mArp = true ∧ ofWirePlain mArpQ ≠ ofWire mArpQ ∧ ¬ StatsOk Cfg.head mArpQ ∧
     (run (init Cfg.head 0 100 4) ops).2 = [[], [.aggStats 0 0 0]] ∧
     (Spec.run (specInit 0 100 4) ops).2 = [[], [.aggStats 0 0 1]] ∧
-    HistOk Cfg.repaired ops ∧ (run (init Cfg.repaired 0 100 4) ops).2 = [[], [.aggStats 0 0 1]] := by decide
+    HistOk (init Cfg.repaired 0 100 4) ops ∧ (run (init Cfg.repaired 0 100 4) ops).2 = [[], [.aggStats 0 0 1]] := by decide
 
 /-- the unrestricted statement fails at HEAD (C04-1's input) … -/
 theorem history_refines_full_defect_head : ¬ history_refines_full Cfg.head := by
@@ -428,18 +468,30 @@ theorem exact_rank_defect :
     Spec.exactSig mArpExact = true ∧ ¬ WireOk cfgNoD26 mArpExact ∧
     (run (init cfgNoD26 0 100 4) ops).1.table.map (·.data.cookie) = [2, 1] ∧
     (Spec.run (specInit 0 100 4) ops).1.flows.map (·.cookie) = [1, 2] ∧
-    HistOk Cfg.repaired ops ∧ (run (init Cfg.repaired 0 100 4) ops).1.table.map (·.data.cookie) = [1, 2] := by decide
+    HistOk (init Cfg.repaired 0 100 4) ops ∧ (run (init Cfg.repaired 0 100 4) ops).1.table.map (·.data.cookie) = [1, 2] := by decide
 
 /-- `dl_type=0x0800, nw_tos` with and without the ECT(0) bit: the same flow for the standard (only the 6 DSCP bits count) -/
 def mTos (t : Nat) : OfMatch := { zeroMatch with wildcards := wc [.dlType, .nwTos] 32 32, dlType := 0x0800, nwTos := t }
 
-/-- … and, with every repair, the unrestricted statement still fails on inputs of C03's open finding D36 (the code compares all 8
-    bits of the ToS byte: two ADDs of the same flow written with different ECN bits do not replace each other).  This is why
-    `history_refines_repaired` keeps the `RegularOp` hypothesis. -/
-theorem history_refines_full_defect_repaired : ¬ history_refines_full Cfg.repaired := by
-  intro h
-  have := congrArg (fun t : STable => t.flows.map (·.cookie)) (h 0 100 4 [fmsg .add (mTos 0) 100 0 1, fmsg .add (mTos 2) 100 0 2]).1
-  revert this
-  decide
+/-- the TCP frame with ECT(0) set in its ToS byte -/
+def tcpFrameEcn : PHdr := { tcpFrame with l3 := .ipv4 0x0a010101 0x0a020202 6 2 false (.ports 1000 80) }
+
+/-- every repair but D36 -/
+def cfgNoD36 : Cfg := { Cfg.repaired with tosDscp := false }
+
+/-- **D36** (C03's finding, seen through the table; repair `fixes/C04_D36_tos_dscp.diff`) — without the repair the code compares
+    all 8 bits of the ToS byte: a flow `nw_tos = 0` misses an ECN-marked packet of DSCP 0 (packet-in instead of a hit), and two
+    ADDs of the same flow written with different ECN bits do not replace each other.  With the repair both follow the standard,
+    and an ECN-marked packet is harmless whatever the table holds — while without it it is harmless only as long as no installed
+    flow compares the ToS byte (`OpOk`'s state-dependent clause: the history below is regular until the flow is installed). -/
+theorem tos_ecn_defect :
+    let ops := [.packet tcpFrameEcn 1 74, fmsg .add (mTos 0) 100 0 1, .packet tcpFrameEcn 1 74, fmsg .add (mTos 2) 100 0 2]
+    HistOk (init cfgNoD36 0 100 4) (ops.take 2) ∧ ¬ HistOk (init cfgNoD36 0 100 4) (ops.take 3) ∧
+    ((run (init cfgNoD36 0 100 4) ops).2.map (fun os => os.map absOut)).getD 2 [] = [.packetIn 1 (some 2) 0] ∧
+    (run (init cfgNoD36 0 100 4) ops).1.table.map (·.data.cookie) = [2, 1] ∧
+    (Spec.run (specInit 0 100 4) ops).2.getD 2 [] = [] ∧ (Spec.run (specInit 0 100 4) ops).1.flows.map (·.cookie) = [2] ∧
+    HistOk (init Cfg.repaired 0 100 4) ops ∧
+    ((run (init Cfg.repaired 0 100 4) ops).2.map (fun os => os.map absOut)).getD 2 [] = [] ∧
+    (run (init Cfg.repaired 0 100 4) ops).1.table.map (·.data.cookie) = [2] := by decide
 
 end Pox.C04
